@@ -125,6 +125,19 @@ def shOffsetPinned (N : Nat) (intSeed : Bool) : Nat := if intSeed then 0 else 2 
 
 end real
 
+section fftobject
+variable {C : Type} [Add C] [Mul C] [OfScientific C]
+
+/-- `phasescreen.ift2(G, delta_f, FFT)` WITH an FFT object, one axis: `fftshift(FFT(fftshift(G))) * (N*delta_f)**2` — NOT the
+shift pair of the default branch (`ifftshift(ifft2(fftshift(G)))`).  The object is a parameter of the code; its contract
+here is "computes `numpy.fft.ifft2`" (what the docstring's "accelerated FFT object" means and what the harness passes). -/
+def ift1_psFFT (n : Nat) (wi : Nat → C) (ninv : C) (nC : C) (delta_f : C) (x : Nat → C) : Nat → C :=
+  fun j => fftshift n (idft n wi ninv (fftshift n x)) j * nC * delta_f
+def ift2_psFFT (n : Nat) (wi : Nat → C) (ninv nC : C) (delta_f : C) (x : Nat → Nat → C) : Nat → Nat → C :=
+  fun a b => ift1_psFFT n wi ninv nC delta_f (fun a' => ift1_psFFT n wi ninv nC delta_f (fun b' => x a' b') b) a
+
+end fftobject
+
 section complex
 variable {K : Type} [Add K] [Sub K] [Mul K] [Div K] [Neg K] [NatCast K] [OfScientific K] [HPow K Nat K] [Transc K]
 variable (C : Type) [Add C] [Mul C] [OfScientific C] [CxOps K C]
@@ -141,6 +154,15 @@ def cnHi (N : Nat) (r0 delta L0 l0 : K) (a b : Nat → Nat → K) (i j : Nat) : 
 def ftScreen (N : Nat) (r0 delta L0 l0 : K) (a b : Nat → Nat → K) (p q : Nat) : K :=
   CxOps.rePart (K := K) (C := C)
     (ift2_ps N (fun m => cisC C (twAngle N m : K))
+      (CxOps.ofParts (((1 : Nat) : K) / (N : K)) ((0 : Nat) : K))
+      (CxOps.ofParts (N : K) ((0 : Nat) : K))
+      (CxOps.ofParts ((1 : Nat) : K) ((0 : Nat) : K))
+      (cnHi C N r0 delta L0 l0 a b) p q)
+
+/-- `ft_phase_screen(..., FFT=<inverse transform>)` -/
+def ftScreenFFT (N : Nat) (r0 delta L0 l0 : K) (a b : Nat → Nat → K) (p q : Nat) : K :=
+  CxOps.rePart (K := K) (C := C)
+    (ift2_psFFT N (fun m => cisC C (twAngle N m : K))
       (CxOps.ofParts (((1 : Nat) : K) / (N : K)) ((0 : Nat) : K))
       (CxOps.ofParts (N : K) ((0 : Nat) : K))
       (CxOps.ofParts ((1 : Nat) : K) ((0 : Nat) : K))
@@ -171,6 +193,17 @@ def ftScreenStream (N : Nat) (r0 delta L0 l0 : K) (g : Nat → K) (p q : Nat) : 
 /-- `ft_sh_phase_screen` as a function of the generator stream -/
 def shScreenStream (N : Nat) (r0 delta L0 l0 : K) (g : Nat → K) (u v : Nat) : K :=
   shScreen C N r0 delta L0 l0 (hiA N g) (hiB N g) (loA (shOffset N) g) (loB (shOffset N) g) u v
+
+/-- `ft_sh_phase_screen(..., FFT=<inverse transform>)`: the object is only handed on to `ft_phase_screen` -/
+def shScreenFFT (N : Nat) (r0 delta L0 l0 : K) (a b : Nat → Nat → K) (la lb : Nat → Nat → Nat → K)
+    (u v : Nat) : K :=
+  loScreen C N r0 delta L0 l0 la lb u v + ftScreenFFT C N r0 delta L0 l0 a b u v
+
+def ftScreenFFTStream (N : Nat) (r0 delta L0 l0 : K) (g : Nat → K) (p q : Nat) : K :=
+  ftScreenFFT C N r0 delta L0 l0 (hiA N g) (hiB N g) p q
+
+def shScreenFFTStream (N : Nat) (r0 delta L0 l0 : K) (g : Nat → K) (u v : Nat) : K :=
+  shScreenFFT C N r0 delta L0 l0 (hiA N g) (hiB N g) (loA (shOffset N) g) (loB (shOffset N) g) u v
 
 /-- the pinned (pre-fix) behaviour, kept to state what was wrong: `intSeed = true` re-reads the stream from position 0 -/
 def shScreenStreamPinned (intSeed : Bool) (N : Nat) (r0 delta L0 l0 : K) (g : Nat → K) (u v : Nat) : K :=
